@@ -157,6 +157,22 @@ func NewLinearFeeFunction(maxFeeRate chainfee.SatPerKWeight,
 	// Calculate how much fee rate should be increased per block.
 	end := l.endingFeeRate
 
+	// The starting fee rate, whether supplied by the caller or derived
+	// from the relay fee for far-away deadlines, must never exceed the
+	// ending fee rate, which is what the budget and the max fee rate
+	// allow. If it does there is no room to ramp up, so we use the ending
+	// fee rate right away, as we do when the deadline is reached.
+	if start > end {
+		log.Warnf("Starting fee rate %v exceeds ending fee rate %v, "+
+			"using the ending fee rate", start, end)
+
+		return &LinearFeeFunction{
+			startingFeeRate: end,
+			endingFeeRate:   end,
+			currentFeeRate:  end,
+		}, nil
+	}
+
 	// The starting and ending fee rates are in sat/kw, so we need to
 	// convert them to msat/kw by multiplying by 1000.
 	delta := btcutil.Amount(end - start).MulF64(1000 / float64(l.width))
